@@ -192,6 +192,7 @@ public:
 
     // SimGOMP support
     int omp_tid = 0, omp_nthr = 1;               // of the *currently running* rank (saved/restored per task)
+    void rank_stack(const void** bottom, size_t* size) const;   // stack of the calling rank (for fiber annotations)
 
 private:
     struct Task;
